@@ -5,3 +5,7 @@
 pub mod util;
 #[cfg(kani)]
 pub mod c14_route;
+#[cfg(kani)]
+pub mod c12_send;
+#[cfg(kani)]
+pub mod c12_chan;
